@@ -424,6 +424,9 @@ func (c *TermCtx) Eq(a, b *Term) *Term {
 	if a.sort.K == SFP {
 		return c.mk("fp.eq", BoolSort, a, b)
 	}
+	if x, y, ok := c.bothIntView(a, b); ok {
+		return c.Eq(x, y)
+	}
 	if a.sort.K == SBool {
 		if a.IsConst() {
 			if a.BoolVal() {
@@ -442,6 +445,37 @@ func (c *TermCtx) Eq(a, b *Term) *Term {
 		a, b = b, a
 	}
 	return c.mk("=", BoolSort, a, b)
+}
+
+// intView: a 64-bit term that is the image of a (small) mathematical integer — a string
+// length or index — can be compared and added in Int, which keeps string-heavy formulas in
+// strings+LIA instead of mixing in int2bv. Lengths and indices are far below 2^62.
+func (c *TermCtx) intView(t *Term) (*Term, bool) {
+	if t.sort.K != SBV || t.sort.W != 64 {
+		return nil, false
+	}
+	if t.op == "int2bv" {
+		return t.args[0], true
+	}
+	if t.IsConst() {
+		v := signExt(t.u, 64)
+		if v > -(1<<40) && v < 1<<40 {
+			return c.IntConst(v), true
+		}
+	}
+	return nil, false
+}
+
+func (c *TermCtx) bothIntView(a, b *Term) (*Term, *Term, bool) {
+	if a.op != "int2bv" && b.op != "int2bv" {
+		return nil, nil, false
+	}
+	x, ok1 := c.intView(a)
+	y, ok2 := c.intView(b)
+	if ok1 && ok2 {
+		return x, y, true
+	}
+	return nil, nil, false
 }
 
 // ---------- bit-vector arithmetic ----------
@@ -560,6 +594,12 @@ func (c *TermCtx) linear(a, b *Term, sub bool) *Term {
 			return c.bvbin("bvsub", a, b)
 		}
 		return c.bvbin("bvadd", a, b)
+	}
+	if x, y, ok := c.bothIntView(a, b); ok {
+		if sub {
+			return c.IntToBV(c.IntBin("-", x, y), 64)
+		}
+		return c.IntToBV(c.IntBin("+", x, y), 64)
 	}
 	coef := map[int]int{}
 	terms := map[int]*Term{}
@@ -812,6 +852,18 @@ func (c *TermCtx) bvcmp(op string, a, b *Term) *Term {
 			return c.True()
 		}
 	}
+	if x, y, ok := c.bothIntView(a, b); ok {
+		switch op {
+		case "bvslt":
+			return c.IntCmp("<", x, y)
+		case "bvsle":
+			return c.IntCmp("<=", x, y)
+		case "bvsgt":
+			return c.IntCmp(">", x, y)
+		case "bvsge":
+			return c.IntCmp(">=", x, y)
+		}
+	}
 	return c.mk(op, BoolSort, a, b)
 }
 
@@ -1012,6 +1064,12 @@ func (c *TermCtx) StrCodeAt(a, i *Term) *Term {
 }
 
 func (c *TermCtx) IntBin(op string, a, b *Term) *Term {
+	if b.IsConst() && b.i == 0 && (op == "+" || op == "-") {
+		return a
+	}
+	if a.IsConst() && a.i == 0 && op == "+" {
+		return b
+	}
 	if a.IsConst() && b.IsConst() {
 		switch op {
 		case "+":
@@ -1061,6 +1119,14 @@ func (c *TermCtx) BVToInt(a *Term) *Term {
 		return a.args[0]
 	}
 	return c.mk("bv2int", IntSort, a)
+}
+
+// StrIsBytes: every character of the SMT string is a byte (Go strings are byte sequences)
+func (c *TermCtx) StrIsBytes(a *Term) *Term {
+	if a.IsConst() {
+		return c.True()
+	}
+	return c.mk("str.isbytes", BoolSort, a)
 }
 
 // uninterpreted function application
@@ -1172,6 +1238,8 @@ func (s *Script) body(t *Term) string {
 		return fmt.Sprintf("(ite (bvslt %s (_ bv0 %d)) (- (bv2nat %s) %s) (bv2nat %s))", a, w, a, new(big.Int).Lsh(big.NewInt(1), uint(w)).String(), a)
 	case "fp.add", "fp.sub", "fp.mul", "fp.div":
 		return fmt.Sprintf("(%s RNE %s %s)", op, t.args[0].ref(), t.args[1].ref())
+	case "str.isbytes":
+		return fmt.Sprintf("(str.in_re %s (re.* (re.range \"\\u{0}\" \"\\u{ff}\")))", t.args[0].ref())
 	case "uf":
 		sb.WriteString("(" + t.s)
 		for _, a := range t.args {
